@@ -684,6 +684,9 @@ func (sw *SessionWindow) handleLateData(row types.Row) bool {
 		if sessionMapKeyOwner(mapKey) == key && info.session.slot.Contains(row.Timestamp) &&
 			wmNow.Before(info.closeTime) {
 			// Append the late event before re-emitting so the update includes it.
+			// It belongs to this session: without the session's slot the re-emitted
+			// result would report window_start()/window_end() of 0.
+			row.Slot = info.session.slot
 			info.session.data = append(info.session.data, row)
 			sw.triggerLateUpdateLocked(info.session)
 			return true
